@@ -197,7 +197,7 @@ func (met *cff2CharstringHandler) setVSIndex(index int) error {
 		return nil
 	}
 
-	if index >= len(met.vars.ItemVariationDatas) {
+	if index < 0 || index >= len(met.vars.ItemVariationDatas) {
 		return fmt.Errorf("invalid 'vsindex' %d", index)
 	}
 
